@@ -41,7 +41,7 @@ func init() {
 			ruleC01R10(r)
 			ruleNoAliasAfterTruncate(r, "R11", "/iscp")
 			ruleDispatchLoopsSurvive(r, "R12", "/wire", "/iscp") // every result of a batched ack reaches its waiter
-			r.borrow("C20", func() { ruleC20P5(r, cut) }) // what counts as an empty buffer decides whether buffered points are ever sent and acknowledged
+			r.borrow("C20", func() { ruleC20P5(r, cut) })        // what counts as an empty buffer decides whether buffered points are ever sent and acknowledged
 		},
 	})
 }
